@@ -82,6 +82,8 @@ class FunctionInteractionsUtils(object):
 
         splits = [DDSPathUtils.split(p) for p in non_empty_paths]
         # _logger.debug("non_terminal splits: %s", splits)
+        # groupby only groups adjacent elements: the paths may come in any order.
+        splits = sorted(splits, key=lambda x: x[0])
         groups = itertools.groupby(splits, lambda x: x[0])
         for (key, l) in groups:
             sub: List[DDSPath] = [(p if p is not None else empty_path) for (_, p) in l]
